@@ -353,6 +353,100 @@ def matrix_store(rng):
     return store
 
 
+def fraction_store(rng, n=300):
+    """fractional seconds with six significant digits: n microsecond values (a few around powers of ten and ends of
+    the range, the rest drawn at random) in an xs:dateTime, an xs:time and an xs:duration Property each, and in
+    lastUpdate / minInterval of BasicEventElements (a reader that goes through binary floating point is off by one
+    microsecond on about 1 % of them)"""
+    import datetime
+    from dateutil.relativedelta import relativedelta
+    from basyx.aas import model
+    us_values = sorted(set([1, 9, 10, 99, 249, 1005, 8999, 99999, 100001, 499999, 500001, 999998, 999999] +
+                           rng.sample(range(1, 10 ** 6), n)))
+    elems = []
+    utc = datetime.timezone.utc
+    ref = model.ModelReference((model.Key(model.KeyTypes.SUBMODEL, "https://example.org/sm/observed"),), model.Submodel)
+    for n_, us in enumerate(us_values):
+        elems.append(model.Property(f"dt{n_}", model.datatypes.DateTime,
+                                    datetime.datetime(2020, 1, 2, 3, 4, 5, us, tzinfo=utc if n_ % 2 else None)))
+        elems.append(model.Property(f"t{n_}", model.datatypes.Time, datetime.time(23, 59, 59, us)))
+        elems.append(model.Property(f"d{n_}", model.datatypes.Duration,
+                                    relativedelta(seconds=(1 if n_ % 3 else -1) * (n_ % 60),
+                                                  microseconds=(1 if n_ % 3 else -1) * us)))
+        if n_ % 5 == 0:
+            elems.append(model.BasicEventElement(f"e{n_}", ref, model.Direction.OUTPUT, model.StateOfEvent.ON,
+                                                 last_update=datetime.datetime(2021, 6, 7, 8, 9, 10, us, tzinfo=utc),
+                                                 min_interval=relativedelta(seconds=n_ % 60, microseconds=us)))
+    store = model.DictObjectStore()
+    store.add(model.Submodel("https://example.org/sm/fraction-sweep", submodel_element=elems))
+    return store
+
+
+def boundary_value(tname, bound):
+    """a string of exactly the minimum / maximum length of a constrained string type of the metamodel that lies in the
+    type's lexical space (None: the type has no such bound or its boundary is covered elsewhere)"""
+    mn, mx, spaces = c05_spec.schemas.STRING_TYPES[tname]
+    if tname in ("ValueDataType", "DateTimeUtc", "Duration", "BlobType", "BcpLangString"):
+        return None
+    n = mn if bound == "minLength" else mx
+    if n is None or n < 1:
+        return None
+    if "idshort" in spaces:
+        return "x" + "a" * (n - 1)
+    if "version" in spaces:
+        return "9" * n
+    if "mime" in spaces:
+        return "a/b" if bound == "minLength" else "a/" + "b" * (n - 2)
+    if "fileuri" in spaces:
+        return "file:/a" if bound == "minLength" else "file:/" + "a" * (n - 6)
+    return "a" * n
+
+
+def string_sites(canons):
+    """(object, attribute or lang-item index, constrained string type) for every string the metamodel constrains"""
+    sites = []
+
+    def f(c):
+        cls = c["_class"]
+        for attr, v in c.items():
+            if isinstance(v, str) and not attr.startswith("_"):
+                tname = c05_spec.schemas.string_type(cls, attr)
+                if attr == "category" and cls in c05_spec.schemas.DATA_ELEMENTS:
+                    continue             # AASd-090 restricts the category of data elements to three words
+                if tname:
+                    sites.append((c, attr, tname))
+            elif isinstance(v, dict) and "items" in v and v.get("_class") in c05_spec.schemas.LANG_TEXT:
+                sites.append((v, "items", c05_spec.schemas.LANG_TEXT[v["_class"]] + "@" + v["_class"]))
+    walk(canons, f)
+    return sites
+
+
+def boundary_jobs(rng, base):
+    """one document per (constrained string type present in the store, minLength | maxLength): ONE randomly chosen
+    occurrence of the type is set to a value of exactly that length (one, so that idShorts and ids stay unique)"""
+    jobs = []
+    types = sorted({t for _, _, t in string_sites(base)})
+    for tname in types:
+        for bound in ("minLength", "maxLength"):
+            plain = tname.split("@")[0]
+            if tname.endswith("@MultiLanguageNameType") and bound == "maxLength":
+                continue                 # 65-128 characters: the variant `name128` (open known finding)
+            val = boundary_value(plain, bound)
+            if val is None:
+                continue
+            canons = json.loads(json.dumps(base))
+            mine = [s for s in string_sites(canons) if s[2] == tname]
+            obj, attr, _ = rng.choice(mine)
+            if attr == "items":
+                obj["items"][0] = [obj["items"][0][0], val]
+                member = "text"
+            else:
+                obj[attr] = val
+                member = c05_spec.schemas.MEMBER.get(attr, attr)
+            jobs.append((canons, {}, (plain, member, bound)))
+    return jobs
+
+
 def read_back(fmt, data):
     if fmt == "json":
         from basyx.aas.adapter.json import read_aas_json_file
@@ -361,16 +455,18 @@ def read_back(fmt, data):
     return read_aas_xml_file(io.BytesIO(data), failsafe=False)
 
 
-def read_oracle(chk, judges, twin, t, rng, store, i, every_style=False):
+def read_oracle(chk, judges, twin, t, rng, store, i, every_style=False, kinds=None, boundaries=False):
     """documents of the independent writer must be judged valid, be accepted by the strict readers and yield the
     canonical form they were written from.  every_style: one document per (literal type, spelling style) on top"""
     base = [c05_spec.norm(aasgen.canon(o)) for o in store]
     jobs = [(json.loads(json.dumps(base)), {}, None)]
-    for kind in VARIANT_KINDS:
+    for kind in (VARIANT_KINDS if kinds is None else kinds):
         canons = json.loads(json.dumps(base))
         knobs, vsig = variants(kind, rng, canons)
         if knobs is not None:
             jobs.append((canons, knobs, vsig))
+    if boundaries:
+        jobs += boundary_jobs(rng, base)
     if every_style:
         for tag in literal_tags(base):
             for style in c05_spec.LITERAL_STYLES[tag]:
@@ -576,7 +672,7 @@ def write_oracle(chk, judges, twin, store, i, strings, t=None):
 def run(chk):
     rng = chk.rng
     quick = chk.tier == "quick"
-    n_store, n_jcases, n_xcases, n_read = (140, 220, 140, 30) if quick else (2400, 1800, 900, 700)
+    n_store, n_jcases, n_xcases, n_read = (120, 220, 140, 24) if quick else (2400, 1800, 900, 700)
     gen_ok = regenerate(chk)
     if gen_ok:
         ok = chk.theorems("props.C05", THEOREMS, VO)
@@ -625,6 +721,32 @@ def run(chk):
     except Exception:
         import traceback
         chk.tie_broken("typed-value-matrix", traceback.format_exc()[-1500:])
+
+    # ---------------------------------------------------------------- six-digit fractional seconds: a sweep, every run
+    try:
+        fs = fraction_store(rng, 220 if quick else 3000)
+        chk.seen(("fractions", sum(len(o.submodel_element) for o in fs)))
+        chk.count("fractions:elements", sum(len(o.submodel_element) for o in fs))
+        write_oracle(chk, judges, twin, fs, -2, "fraction sweep")
+        read_oracle(chk, judges, twin, t, rng, fs, -2, kinds=[])
+    except Exception:
+        import traceback
+        chk.tie_broken("fraction-sweep", traceback.format_exc()[-1500:])
+
+    # ---------------------------------------------------------------- boundary lengths of every constrained string type
+    for i in range(2 if quick else 30):
+        try:
+            g = c05_spec.SpecGen(rng, strings="plain", depth=2, p_opt=0.85)
+            bs = g.store(3)
+            bs.add(g.submodel())
+            for cname in ("AssetAdministrationShell", "ConceptDescription"):
+                if not any(type(o).__name__ == cname for o in bs):
+                    bs.add(g.obj(cname))
+            chk.seen(("boundaries", i, sorted(o.id for o in bs)))
+            read_oracle(chk, judges, twin, t, rng, bs, -3 - i, kinds=[], boundaries=True)
+        except Exception:
+            import traceback
+            chk.tie_broken("boundary-lengths", traceback.format_exc()[-1500:])
 
     # ---------------------------------------------------------------- writing oracle on whole stores
     jdocs, xdocs = [], []
